@@ -253,7 +253,7 @@ fn judge_write(
             out.find(
                 &format!("write-stream-diverges/{shape}"),
                 format!(
-                    "{who}: to-socket bytes differ from CFB8_ref(bytes reported as written) from offset {d} ({} after the switch), first {shape}",
+                    "{who}: to-socket bytes differ from CFB8_ref(bytes reported as written) from offset {d} ({} after the switch); first hostile transport answer before it: {shape}",
                     d - s
                 ),
                 detail(shape),
@@ -1056,20 +1056,31 @@ pub fn run(sc: &Scenario) -> Result<Outcome, String> {
 }
 
 /// Harness self-check, independent of the code under test: the plan transport keeps its promises
-/// and the reference cipher inverts itself.
-pub fn self_check() -> Result<(), String> {
-    let secret = [7u8; 16];
+/// and the reference cipher inverts itself and is split-invariant (`n` >= 8 bytes are used).
+pub fn self_check(secret: &[u8], n: usize) -> Result<(), String> {
+    let n = n.max(8);
     let data: Vec<u8> = (0..200u32).map(|i| (i * 31 % 251) as u8).collect();
-    let ct = ref_cipher(&secret).encrypt(&data);
-    if ref_cipher(&secret).decrypt(&ct) != data || ct == data {
+    let ct = ref_cipher(secret).encrypt(&data[..n]);
+    if ref_cipher(secret).decrypt(&ct) != data[..n] || ct == data[..n] {
         return Err("reference CFB8 does not invert itself".into());
     }
     // split-invariance of the reference (one continuous stream)
-    let mut c = ref_cipher(&secret);
+    let mut c = ref_cipher(secret);
     let mut split = c.encrypt(&data[..7]);
-    split.extend(c.encrypt(&data[7..]));
+    split.extend(c.encrypt(&data[7..n]));
     if split != ct {
         return Err("reference CFB8 is not split-invariant".into());
+    }
+    // the first keystream byte straight from the raw block function of the `aes` crate:
+    // c0 = p0 ^ AES_k(iv)[0] with key = iv = secret
+    {
+        use aes::cipher::{BlockEncrypt, KeyInit, generic_array::GenericArray};
+        let k = aes::Aes128::new(GenericArray::from_slice(&secret[..16]));
+        let mut b = GenericArray::clone_from_slice(&secret[..16]);
+        k.encrypt_block(&mut b);
+        if ct[0] != data[0] ^ b[0] {
+            return Err("reference CFB8 disagrees with the raw AES block function of the aes crate".into());
+        }
     }
     // plan transport: Partial(7) accepts 7 of 20, Pending wakes, Full accepts all
     let st = PlanState::new(
